@@ -146,8 +146,8 @@ def reuse_job(args):
                 present = sim._design.fragment.domains      # the domains of the prepared design, created ones included
                 missing = sorted(n for n in D.domnames if n not in present)
                 if missing:
-                    case["error"] = ("NameError", f"domain(s) {missing} used by the design are not among the domains of the "
-                                     f"simulated design {sorted(present)}")
+                    case["error"] = ("missing-domain", f"domain(s) {missing} that the design uses are not among the domains of the "
+                                     f"prepared design {sorted(present)} (Simulator.add_clock would raise NameError)")
                 D.cds = [cds.get(n) or present.get(n) or make_domain(n, ("pos", "sync")) for n in D.domnames]
                 head, sigs, sigidx = gen_design.ser_design(D)
                 if "error" not in case:
@@ -200,7 +200,8 @@ def judge(chk, case, resp):
         chk.hist("generator_errors", 1)
         return
     if "error" in case:
-        chk.violation(where + f"simulating a legal multi-domain design raises {case['error'][0]}: {case['error'][1][:160]}", dict(base, kind="raises", error=case["error"], classes=[]))
+        what = "cannot be driven" if case["error"][0] == "missing-domain" else f"raises {case['error'][0]}"
+        chk.violation(where + f"simulating a legal multi-domain design {what}: {case['error'][1][:200]}", dict(base, kind="raises", error=case["error"], classes=[]))
         return
     if not resp.startswith("c03 ;"):
         chk.not_shown("driver could not evaluate a design", dict(base, response=resp[:300]))
